@@ -63,12 +63,14 @@ def embeddings(order: list[list[str]]) -> list[dict[str, float]]:
     z = next(i for i, c in enumerate(order) if "0" in c)
     above = len(order) - 1 - z
     out = []
-    for crowded in (False, True):
+    for crowded in (False, True, "tiny"):
         val: dict[str, float] = {}
         for i, c in enumerate(order):
             k = i - z
             if k == 0:
                 v = 0.0
+            elif crowded == "tiny":
+                v = k / 8192.0  # everything within the library's comparison tolerance of zero (and of each other): a tolerance test is not the exact one
             elif k > 0:
                 v = 1.0 - (above - k) / 64.0 if crowded else k / 8.0
             else:
@@ -138,8 +140,16 @@ class World:
                 if isinstance(x, Deg):
                     w.log.append(("use", x.index))
 
+        def is_close(ex, e, recv, args, kw):
+            # Op.is_close(a, b): |a - b| <= atol + rtol * |b| with the library's default tolerances (1e-3, 0)
+            a, b = args[0], args[1]
+            if not all(isinstance(x, (int, float)) for x in (a, b)):
+                raise Unknown("is_close on something that is not a pair of numbers")
+            ex.used(a, b)
+            return abs(a - b) <= 1e-3
+
         return {"method:deactivate": deactivate, "method:is_loaded": is_loaded, "method:activate_with": activate_with, "method:trigger": trigger,
-                "method:assert_is_not_vector": assert_is_not_vector, "use": use}
+                "method:assert_is_not_vector": assert_is_not_vector, "use": use, "method:is_close": is_close, "method:isclose": is_close}
 
 
 def _heapq_ns(use: Any) -> MObj:
@@ -241,9 +251,11 @@ def configurations(cls: str, n_rules: int, thorough: bool) -> Iterator[tuple[lis
     if cls == "General":
         items = names[:1] + ["0"]  # the degrees decide nothing
     for order in weak_orders(items):
-        for val in embeddings(order):
+        for which, val in enumerate(embeddings(order)):
             degrees = [val.get(nm, val[names[0]]) for nm in names]
             for states in flags:
+                if which == 2 and not thorough and not all(s == "ok" for s in states):
+                    continue  # the third embedding (degrees within the comparison tolerance of zero): on the fully loaded block only in the quick tier
                 # quick: the degenerate counts 0 ("the first 0 rules": none) and N + 1 (more than there are) on the block whose rules are all loaded
                 edge = [0, n_rules + 1] if (not thorough and len(counts) > 1 and all(s == "ok" for s in states)) else []
                 for n in counts + edge:
@@ -260,6 +272,8 @@ ASPECTS = {
     "selection": ("A-sem", "selection", "exactly the rules the definition selects are triggered, once, holding the degree the definition gives them"),
     "scalar-only": ("O-vec", "assert_is_not_vector", "assert_is_not_vector(degree) comes before anything consults the degree as a single number"),
     "no-internal-error": ("A-sem", "no-internal-error", "the method ends without an exception of its own"),
+    "accumulated": ("P11", "accumulated-so-far", "a selected rule is triggered before the degree of any later rule (in the method's order of going through the block) is "
+                    "computed: an output variable read by a later antecedent sees the contributions accumulated so far"),
     "history-free": ("A-sem", "history-free", "an activation object that was used before on another block does exactly what a new one does"),
 }
 VECTOR_INCAPABLE = ("First", "Last", "Highest", "Lowest", "Proportional", "Threshold")
@@ -269,7 +283,7 @@ def activation_semantics(check: Check, cls: str, aspects: tuple[str, ...] | None
     """Interpret `cls.activate` on the model rule blocks and report the named aspects (all by default) as obligations
     <rule>/<cls>.activate/<construct> of the table above."""
     if aspects is None:
-        aspects = tuple(a for a in ASPECTS if a != "scalar-only" or cls in VECTOR_INCAPABLE)
+        aspects = tuple(a for a in ASPECTS if (a != "scalar-only" or cls in VECTOR_INCAPABLE) and (a != "accumulated" or cls in ("General", "First", "Last", "Threshold")))
     p = check.program
     fn = p.func(f"{cls}.activate")
     check.analysed(fn)
@@ -434,6 +448,18 @@ def _judge(cls: str, w: World, want: dict[int, float], what: str, bad: dict[str,
     for ev in trig:
         if not ev[2]:
             bad.setdefault("implication", (f"{what}: rule {ev[1]} is triggered with something other than the block's implication", None))
+    # chained rules: the methods that decide rule by rule (General, First, Threshold forwards, Last backwards) fire a selected rule before they
+    # compute the degree of the next one, so that an antecedent over an output variable reads what the earlier rules of the block concluded
+    if cls in ("General", "First", "Last", "Threshold"):
+        pos = {(ev[0], ev[1]): k for k, ev in enumerate(w.log) if ev[0] in ("activate_with", "trigger")}
+        for (kind, i), pt in pos.items():
+            if kind != "trigger":
+                continue
+            for (kind2, j), pa in pos.items():
+                later = j < i if cls == "Last" else j > i
+                if kind2 == "activate_with" and later and pa < pt:
+                    bad.setdefault("accumulated", (f"{what}: the degree of rule {j} is computed before rule {i} is triggered - an antecedent of rule {j} that reads an output "
+                                                   f"variable does not see what rule {i} concludes (the rules of a block fire in order, each seeing the contributions so far)", None))
     # the degree is consulted as a single number only after assert_is_not_vector has seen it
     asserted: set[int] = set()
     for ev in w.log:
